@@ -259,6 +259,37 @@ def fit_equiv_case(name):
   return fn
 
 
+def dtype_dependent_callable_case():
+  """NOT solver-decided (dtype promotion is C-level): a callable preprocessor whose output dtype depends on the indicators (integer-valued
+  records come back as an integer array, fractional ones as float) -- forming tuples must promote, never truncate, and integer index
+  dtypes of every width address the same rows"""
+  def fn(ctx):
+    records = [[1, 2], [3, 4], [0.5, 1.5], [2.25, -1.0], [5, 6]]
+    def pre(indices):
+      return np.array([records[int(i)] for i in indices])
+    Xf = np.array(records, dtype=float)
+    import itertools
+    for est_name, t in (('ITML', 2), ('SCML', 3), ('LSML', 4)):
+      cls = mahal.classes()[est_name]
+      for row in itertools.islice(itertools.product(range(5), repeat=t), 0, None, 7):
+        for row2 in ((0,) * t, (2,) * t, tuple(reversed(row))):
+          idx = np.array([row, row2])
+          for pk, prep in (('callable', pre), ('array', Xf), ('list', [list(r) for r in records])):
+            est = cls(preprocessor=prep)
+            got = est._prepare_inputs(idx, type_of_inputs='tuples')
+            ctx.require('tuples_formed_without_truncation_%s' % pk, ctx.cond(np.array_equal(np.asarray(got, float), Xf[idx])),
+                        detail='%s %s idx %s' % (est_name, pk, idx.tolist()))
+    est = mahal.classes()['NCA'](preprocessor=pre)
+    for dt in (np.int8, np.uint8, np.int16, np.uint32, np.int64, np.uint64):
+      for idx in ([0, 2, 2], [4, 0, 1, 3], [2, 1, 0], [3, 3], [0, 2, 1, 3], [1, 2, 3]):
+        for pk, prep in (('callable', pre), ('array', Xf)):
+          est = mahal.classes()['NCA'](preprocessor=prep)
+          got = est._prepare_inputs(np.array(idx, dtype=dt))
+          ctx.require('points_formed_for_every_integer_index_dtype_%s' % pk, ctx.cond(np.array_equal(np.asarray(got, float), Xf[idx])),
+                      detail='%s idx %s' % (np.dtype(dt).name, idx))
+  return fn
+
+
 def cases(tier, seed):
   out = [case('ast_fit_reads_validated_data', ast_case(), FUNCS, 'source of every fit/_fit of the 17 estimators', validate=1)]
   names = ('_prepare_inputs', '_check_preprocessor')
@@ -275,6 +306,14 @@ def cases(tier, seed):
                         '%s preprocessor over 3 arbitrary points in R^%d, %d %s of arbitrary (repeated, unordered) indices; run on %s'
                         % (pk, d, (1 if t >= 3 else 2), 'points' if t == 0 else 'tuples of size %d' % t, rep),
                         tiers=('quick', 'thorough') if quick else ('thorough',), cost=2 + t, max_paths=200000))
+  # longer index arrays: every index array of length 3 / 4 over the rows (blocks that look consecutive from their end points, repeats, permutations)
+  for t, rep, n, m in ((0, 'NCA', 3, 3), (0, 'NCA', 4, 4), (2, 'ITML', 3, 3)):
+    out.append(case('prepare_%s_n%d_array_long' % ('points' if t == 0 else 't%d' % t, n), prepare_case(rep, t, 1, 'array', m=m, n=n), FUNCS,
+                    'array preprocessor over %d arbitrary points in R^1, %d %s, EVERY index array (repeats, any order); run on %s' % (m, n, 'points' if t == 0 else 'pairs', rep),
+                    tiers=('quick', 'thorough'), cost=10, max_paths=200000))
+  out.append(case('dtype_dependent_callable', dtype_dependent_callable_case(), FUNCS,
+                  'callable preprocessor returning integer or float arrays depending on the records selected; index dtypes int8..uint64 (concrete, sampled; not solver-decided)',
+                  concrete_only=True, validate=1, cost=2))
   for rep in ('ITML', 'SCML', 'LSML', 'Covariance'):
     for pk in ('array', 'callable', 'list'):
       out.append(case('methods_%s_%s' % (rep, pk), methods_case(rep, 2, pk), FUNCS,
